@@ -44,6 +44,9 @@ func (w *Watcher) Start(ch chan<- controller.ID) error {
 	go func() {
 		for event := range eventCh {
 			ch <- controller.NewID(event.Transaction.Index)
+			// The next Transaction waits for this one to be initialized. It is re-queued by the reconcile pass that
+			// initializes this one, but not if that pass fails after its write took effect: wake it on every change.
+			ch <- controller.NewID(event.Transaction.Index + 1)
 		}
 	}()
 	return nil
